@@ -387,6 +387,7 @@ func main() {
 	os.Setenv("TZ", "UTC")
 	r := ev.Start("C16", "model_checking", 70*time.Second, 15*time.Minute)
 	sp := buildSpace(r.Thorough())
+	depthLimits = sp.scan.InReach
 	run := func(i int) *wkpool.CaseResult {
 		if i < sp.p1 {
 			for _, f := range sp.fams {
@@ -396,7 +397,15 @@ func main() {
 				i -= f.size
 			}
 		}
-		seq := sp.seqAt(i - sp.p1)
+		i -= sp.p1
+		if i < len(sp.deep) {
+			return runProfile(sp.deep[i], 3, false)
+		}
+		i -= len(sp.deep)
+		if i >= sp.nPoolSeqs {
+			return runMerge(sp.deepSeqs[i-sp.nPoolSeqs], true)
+		}
+		seq := sp.seqAt(i)
 		var profs []*Prof
 		for _, k := range seq {
 			profs = append(profs, sp.pool[k])
@@ -494,6 +503,10 @@ func main() {
 		r.Sample(map[string]any{"family": f.name, "index": off + f.size/3, "profile": f.at(f.size / 3)})
 		off += f.size
 	}
+	if len(sp.deep) > 0 {
+		d := sp.deep[len(sp.deep)/2]
+		r.Sample(map[string]any{"family": "boundary-depth", "stack_depth": len(d.Samples[0].Stack), "stack_pattern_leaf_first": d.Samples[0].Stack[:6], "second_sample": d.Samples[1]})
+	}
 	for _, k := range []int{len(sp.pool) + 7, len(sp.pool)*len(sp.pool) + len(sp.pool) + 1234} {
 		var ps []*Prof
 		for _, x := range sp.seqAt(k) {
@@ -553,6 +566,7 @@ func main() {
 	r.Transitions = r.TracesValidated
 	r.Extra["cases_in_space"] = sp.total
 	r.Extra["space"] = sp.describe()
+	r.Extra["numeric_limits_in_anchored_code"] = sp.scan
 	keys := make([]string, 0, len(counters))
 	for k := range counters {
 		keys = append(keys, k)
